@@ -45,8 +45,10 @@ def run_driver(chk, test, result_file, env, timeout=1500, race=True):
                     return re.findall(r"\n\s+(/\S+\.go):\d+", sec)
                 for w, r_ in ((secs[0], secs[1]), (secs[1], secs[0])):
                     fw = [f for f in frames(w) if f.startswith(vlib.REPO + "/")]
+                    # (the write happens in the client's own code - whoever called into the client; the read is the harness looking
+                    # at a result it was given)
                     if kind(w) == "write" and kind(r_) == "read" and fw and "zz_verif" not in fw[0] and "verifsim" not in fw[0] \
-                            and not [f for f in fw if "zz_verif" in f] and "rcResultTag" in r_:
+                            and "rcResultTag" in r_:
                         res["violations"] = (res.get("violations") or []) + [dict(sig="delivered-result-overwritten",
                             desc="the client writes to memory of a result it has already delivered to a caller (race detector):\n"
                                  + ("WARNING: DATA RACE" + blk)[:1800])]
